@@ -5,6 +5,7 @@ import (
 	"crypto/sha256"
 	"encoding/hex"
 	"fmt"
+	"github.com/nspcc-dev/neo-go/pkg/core/transaction"
 	"math/big"
 	"sort"
 	"strings"
@@ -78,7 +79,9 @@ func ownerID(sh util.Uint160) []byte {
 }
 
 // makeBlob builds a container BLOB (V2 layout): 0x0a, L, version[L], 4 bytes, owner[25], tail.
-func makeBlob(owner []byte, verLen int, nonce int) []byte { return makeBlobPad(owner, verLen, nonce, 0) }
+func makeBlob(owner []byte, verLen int, nonce int) []byte {
+	return makeBlobPad(owner, verLen, nonce, 0)
+}
 
 // makeBlobPad: the same with the tail grown until the whole BLOB is `total` bytes long (0: shortest). Lengths of 253
 // bytes and more take a three-byte length prefix in the VM's serialization of the stored record (seeded change C04-11).
@@ -206,6 +209,11 @@ func (e *env) alphaSigners(k int) ([]world.SignerSpec, bool, string) {
 		return []world.SignerSpec{world.G(e.w.Members[0])}, memIsAlpha, "member"
 	case 3:
 		return []world.SignerSpec{world.G(world.Single(e.owners[1].priv))}, false, "owner-only"
+	case 5:
+		// the Alphabet's multi-signature is there, but its scope does not reach the call: no witness
+		return []world.SignerSpec{world.Scoped(e.w.Alphabet, transaction.None)}, false, "alphabet(scope None)"
+	case 6:
+		return []world.SignerSpec{world.Scoped(e.w.Alphabet, transaction.CustomContracts, e.w.GAS)}, false, "alphabet(scoped to GAS)"
 	}
 	return nil, false, "nobody"
 }
@@ -214,7 +222,7 @@ func (e *env) pickAlpha(honest int) int {
 	if e.b.Rng.IntN(10) < honest {
 		return 0
 	}
-	return 1 + e.b.Rng.IntN(4)
+	return 1 + e.b.Rng.IntN(6)
 }
 
 func hexs(b []byte) string { return hex.EncodeToString(b) }
